@@ -150,6 +150,8 @@ type World struct {
 	stopEverAsked    bool
 	started          bool
 	regLost          []string
+	stopCallsPending int       // Engine.Stop calls of application tasks that have not returned
+	runDoneAt        time.Time // simulated time at which Run returned
 	stopAskedStep    int
 	floodUsers       int // application tasks that issue asynchronous writes until Run returns
 	spinSeen         bool
@@ -409,6 +411,7 @@ func (w *World) run() {
 			err = gnet.Run(&handler{w}, w.addr, w.options()...)
 		}
 		w.runDone, w.runErr, w.runDoneStep = true, err, w.s.Step()
+		w.runDoneAt = time.Now()
 		w.logf("run returned err=%v", err)
 	})
 	for ui := range p.Users {
